@@ -45,10 +45,10 @@ def units(tier):
 def meta(tier):
     return {
         "rule": f"every cyclic class topology over <= {NMAX[tier]} classes (1-2 links per class, <= n+1 links, edge kinds {cycles.KINDS} (a bare class-typed link only towards a class without bare links), non-root relabelings identified) "
-        f"x module styles (from __future__ import annotations / eager with string back references / all classes nested in an outer class / TypedDict classes / NamedTuple classes / plain classes hinted only by the (string) annotations of their __init__) x every root form {cycles.ROOT_FORMS} of every class "
+        f"x module styles (from __future__ import annotations / eager with string back references / all classes nested in an outer class / TypedDict classes / NamedTuple classes / plain classes hinted only by the (string) annotations of their __init__ / dataclasses defining __call__) x every root form {cycles.ROOT_FORMS} of every class "
         f"x depths {DEPTHS[tier][0]}..{DEPTHS[tier][-1]} (payloads given as text so an unconverted level is visible), plus 10 recursive-alias programs (string-valued TypeAliasType and PEP 695 `type` statements, also with the alias value as root); "
         "oracle: build within the wall limit; unmarshal(T, wire) same-as the value built directly with the classes; marshal gives the all-plain wire; "
-        "round trip; both build orders agree; non-trivial = the call returned; distinct by (topology, style, root, depth, outcome)",
+        "round trip; both build orders agree; every node of the depth-2 wire held by a list / dict / variadic-tuple edge replaced by null in turn: the call raises or the result holds a converted node there; non-trivial = the call returned; distinct by (topology, style, root, depth, outcome)",
         "bounds": {"classes": NMAX[tier], "depths": DEPTHS[tier]},
         "assumptions": ["cold state per program", "thorough tier: sys.setrecursionlimit(5000) (the library needs up to ~10 Python frames per level); depths above 50 are not judged (CPython's C recursion budget, see DEPTHS)"],
         "exhaustive": True,
